@@ -179,10 +179,23 @@ struct Expect {
     metrics: Vec<(u16, i16)>,
     num_glyphs: usize,
     nhm: usize,
+    /// tags this font does not have and that must be reported absent (for a collection member: every tag that
+    /// only other members have)
+    probe_absent: Vec<u32>,
+}
+
+/// tags probed for absence in every font that lacks them
+const DEFAULT_ABSENT: [u32; 8] = [tag(b"none"), tag(b"GDEF"), tag(b"cvt "), tag(b"CFF "), tag(b"glyf"), tag(b"loca"), tag(b"zzzz"), tag(b"fpgm")];
+
+fn absent_for(own: &[(u32, Vec<u8>)], others: &[u32]) -> Vec<u32> {
+    let mut v: Vec<u32> = DEFAULT_ABSENT.iter().chain(others.iter()).copied().filter(|t| !own.iter().any(|o| o.0 == *t)).collect();
+    v.sort();
+    v.dedup();
+    v
 }
 
 fn expect_of(m: &Model, orig: &[(u32, Vec<u8>)], transformed: &[u32]) -> Expect {
-    Expect { tables: orig.to_vec(), transformed: transformed.to_vec(), glyphs: m.glyphs.clone(), metrics: m.metrics.clone(), num_glyphs: m.num_glyphs, nhm: m.nhm }
+    Expect { tables: orig.to_vec(), transformed: transformed.to_vec(), glyphs: m.glyphs.clone(), metrics: m.metrics.clone(), num_glyphs: m.num_glyphs, nhm: m.nhm, probe_absent: absent_for(orig, &[]) }
 }
 
 type Got = BTreeMap<u32, Vec<u8>>;
@@ -401,6 +414,47 @@ fn decode(file: &[u8], index: usize, seam: u8, tags: &[u32]) -> Result<Result<Go
     })
 }
 
+/// Every way of asking font `index` for a tag it does not have must say "absent". Returns the complaints.
+fn probe_absent(file: &[u8], index: usize, absent: &[u32]) -> Result<Vec<String>, PanicInfo> {
+    guard(|| {
+        let mut bad = Vec::new();
+        let ask = |bad: &mut Vec<String>, seam: &str, p: &dyn FontTableProvider| {
+            for t in absent {
+                if p.has_table(*t) {
+                    bad.push(format!("{}: has_table({}) is true", seam, tag_str(*t)));
+                }
+                match p.table_data(*t) {
+                    Ok(None) => {}
+                    o => bad.push(format!("{}: table_data({}) = {:?}", seam, tag_str(*t), o.map(|x| x.map(|c| c.len())))),
+                }
+                if p.read_table_data(*t).is_ok() {
+                    bad.push(format!("{}: read_table_data({}) is Ok", seam, tag_str(*t)));
+                }
+            }
+        };
+        if let Ok(f) = ReadScope::new(file).read::<Woff2Font<'_>>() {
+            if let Ok(p) = f.table_provider(index) {
+                ask(&mut bad, "Woff2Font", &p);
+            }
+            for t in absent {
+                match f.read_table(*t, index) {
+                    Ok(None) => {}
+                    o => bad.push(format!("Woff2Font::read_table({}, {}) = {:?}", tag_str(*t), index, o.map(|x| x.map(|b| b.scope().data().len())))),
+                }
+                if f.find_table_entry(*t, index).is_some() {
+                    bad.push(format!("Woff2Font::find_table_entry({}, {}) is Some", tag_str(*t), index));
+                }
+            }
+        }
+        if let Ok(f) = ReadScope::new(file).read::<FontData<'_>>() {
+            if let Ok(p) = f.table_provider(index) {
+                ask(&mut bad, "FontData", &p);
+            }
+        }
+        bad
+    })
+}
+
 fn hex_tables(t: &[(u32, Vec<u8>)]) -> Value {
     let mut m = Map::new();
     for (tg, d) in t {
@@ -414,6 +468,7 @@ fn witness(file: &[u8], index: usize, exp: &Expect, what: &Value, detail: Value)
         "kind": "font", "what": what, "detail": detail, "index": index,
         "transformed": exp.transformed.iter().map(|t| tag_str(*t)).collect::<Vec<_>>(),
         "numberOfHMetrics": exp.nhm, "numGlyphs": exp.num_glyphs,
+        "absent_probe": exp.probe_absent.iter().map(|t| tag_str(*t)).collect::<Vec<_>>(),
         "orig_tables": hex_tables(&exp.tables),
         "file_hex": mcx::hex(file),
     })
@@ -494,6 +549,16 @@ fn check_font(ctx: &Ctx, file: &[u8], index: usize, exp: &Expect, len: Lenient, 
                 }
             }
         }
+    }
+    // tags the font does not have (in a collection: tables of the other members) are absent through every accessor
+    match probe_absent(file, index, &exp.probe_absent) {
+        Ok(bad) => {
+            if let Some(first) = bad.first() {
+                ctx.violation("C11:absent-table-served", || witness(file, index, exp, &what(), json!({"first": first, "all": bad.iter().take(12).collect::<Vec<_>>()})));
+                out = out.str(first);
+            }
+        }
+        Err(p) => ctx.violation(&format!("C11:panic:{}", site(&p)), || witness(file, index, exp, &what(), json!({"seam": "absent-probe", "panic": p.msg}))),
     }
     // raw access to stored tables: an untransformed table is returned as stored
     if !len.hmtx_without_glyf_transform {
@@ -992,8 +1057,100 @@ fn build_collection(members: &[Member], share_glyf: bool, share_other: bool, ver
         fonts.push(CollectionFont { flavor: m.flavor, tables: idx.iter().map(|x| x.1).collect() });
         expects.push(expect_of(m, &orig, &transformed));
     }
+    // every tag that occurs anywhere in the file is probed for absence in the members that lack it
+    let all_tags: Vec<u32> = entries.iter().map(|e| e.tag).collect();
+    for e in expects.iter_mut() {
+        e.probe_absent = absent_for(&e.tables, &all_tags);
+    }
     let coll = Collection { version, fonts, u255 };
     (enc::build_woff2(enc::TTCF, &entries, Some(&coll), None, None), expects)
+}
+
+/// Members with different table sets: 0 = TrueType with `cvt `, `GDEF` and an arbitrary-tag table; 1 = the same outlines
+/// (glyf/loca shareable) without those three but with `fpgm`; 2 = an OTTO/CFF member (no glyf/loca) with the same head, cmap,
+/// post and GDEF bytes as member 0 (shareable); 3 = TrueType with its own outlines and another `cvt `
+fn mixed_member(kind: usize, glyf_transform: bool, hmtx_elide: bool) -> Member {
+    let gdef: Vec<u8> = vec![0, 1, 0, 0, 0, 0, 0, 0, 0, 0, 0, 0];
+    match kind {
+        0 | 1 => {
+            let glyphs = set_basic();
+            let n = glyphs.len();
+            let mut model = ttf_model(glyphs, n / 2, 1, true);
+            if kind == 0 {
+                model.extra = vec![(tag(b"cvt "), vec![0, 1, 0, 2, 0, 3]), (tag(b"GDEF"), gdef), (tag(b"zzzz"), vec![0xAB; 5])];
+            } else {
+                model.extra = vec![(tag(b"fpgm"), vec![0xB0, 0x00, 0x2C])];
+                model.flavor = sfnt::TRUE;
+            }
+            Member { model, glyf_transform, hmtx_flags: if glyf_transform && hmtx_elide { 1 } else { 0 } }
+        }
+        2 => {
+            let n = 9usize;
+            let nhm = 4usize;
+            let metrics: Vec<(u16, i16)> = (0..n).map(|i| (700 + i.min(nhm - 1) as u16, i as i16 - 3)).collect();
+            let model = Model { flavor: sfnt::OTTO, glyphs: Vec::new(), cff: Some((0..90u32).map(|i| (i * 7 + 3) as u8).collect()), num_glyphs: n, metrics, nhm, long_loca: true, extra: vec![(tag(b"GDEF"), gdef)] };
+            Member { model, glyf_transform: false, hmtx_flags: 0 }
+        }
+        _ => {
+            let glyphs = set_instruction_flag_placement();
+            let n = glyphs.len();
+            let mut model = ttf_model(glyphs, n, 3, true);
+            model.extra = vec![(tag(b"cvt "), vec![9, 9])];
+            Member { model, glyf_transform, hmtx_flags: if glyf_transform && hmtx_elide { 3 } else { 0 } }
+        }
+    }
+}
+
+/// every ordered selection of 2 or 3 different member kinds
+fn mixed_selections() -> Vec<Vec<usize>> {
+    let mut v = Vec::new();
+    for a in 0..4usize {
+        for b in 0..4usize {
+            if a == b {
+                continue;
+            }
+            v.push(vec![a, b]);
+            for c in 0..4usize {
+                if c != a && c != b {
+                    v.push(vec![a, b, c]);
+                }
+            }
+        }
+    }
+    v
+}
+
+fn run_mixed_collections(ctx: &Ctx) {
+    let sels = mixed_selections();
+    let s = explore_par(if ctx.tier.thorough() { 3 } else { 1 }, 1, |c: &mut Chooser<'_>| {
+        let sel = c.of(&sels).clone();
+        let share_glyf = c.flag();
+        let share_other = c.flag();
+        let glyf_transform = c.flag();
+        let hmtx_elide = c.dev(2) == 0;
+        let version = *c.dev_of(&[0x0001_0000u32, 0x0002_0000]);
+        let u255 = U255_MODES[c.dev(3)];
+        let explicit_tags = c.dev(2) == 1;
+        let members: Vec<Member> = sel.iter().map(|&k| mixed_member(k, glyf_transform, hmtx_elide)).collect();
+        let (file, expects) = build_collection(&members, share_glyf, share_other, version, u255, explicit_tags);
+        let what = |k: usize| {
+            json!({"family": "mixed-collection", "member_kinds": sel, "font": k, "share_glyf": share_glyf, "share_other": share_other, "glyf_transform": glyf_transform,
+                   "hmtx_elide": hmtx_elide, "version": version, "u255": format!("{:?}", u255), "explicit_tags": explicit_tags,
+                   "member_tags": expects.iter().map(|e| e.tables.iter().map(|t| tag_str(t.0)).collect::<Vec<_>>()).collect::<Vec<_>>()})
+        };
+        let h = H::new().bytes(&file).get();
+        let mut o = H::new();
+        for (k, exp) in expects.iter().enumerate() {
+            o = o.u64(check_font(ctx, &file, k, exp, Lenient::default(), &|| what(k)));
+        }
+        ctx.mark_nontrivial(h);
+        ctx.mark_outcome(o.get());
+        FONT_OUTCOMES.lock().unwrap().insert(o.get());
+        ctx.sample(h, || json!({"case": what(0), "file_bytes": file.len()}));
+    });
+    ctx.add_states(s.states);
+    ctx.add_transitions(s.transitions);
+    ctx.set("mixed_collection_family_executions", json!(s.executions));
 }
 
 fn run_collections(ctx: &Ctx) {
@@ -1226,7 +1383,7 @@ pub fn run(ctx: &Ctx) {
          decoded by allsorts through Woff2Font and FontData and compared table by table with the model; families: (1) 255UInt16 all values x all encodings and \
          UIntBase128 byte strings read directly, (2) one font per (delta, admissible triplet row, point position, on-curve bit) for the deltas at the ends of every \
          row's range, (3) five glyph sets x numberOfHMetrics x lsb pattern x hmtx flags (full product) x deviations in the remaining encoder choices, \
-         (4) collections of 1-3 fonts x sharing patterns x per-font choices, (5) boundary fonts (numGlyphs, loca format switch, known tags, CFF, every placement of WE_HAVE_INSTRUCTIONS over 1-3 components). \
+         (4) collections of 1-3 fonts x sharing patterns x per-font choices, and collections of 2-3 members with different table sets (TrueType with cvt/GDEF/arbitrary tag, TrueType without them, OTTO/CFF, TrueType with own outlines; every ordered selection) where every member must be handed exactly its own tag set and tables, (5) boundary fonts (numGlyphs, loca format switch, known tags, CFF, every placement of WE_HAVE_INSTRUCTIONS over 1-3 components). \
          non-trivial = at least one table is stored transformed (fonts) / the encoding is longer than one byte (integers)",
     );
     ctx.assume("brotli stream consists of uncompressed meta-blocks only (no compressor offline); the decompressor crate is trusted");
@@ -1242,6 +1399,7 @@ pub fn run(ctx: &Ctx) {
     run_triplets(ctx);
     run_fonts(ctx);
     run_collections(ctx);
+    run_mixed_collections(ctx);
     run_boundaries(ctx);
     ctx.set("font_distinct_outcomes", json!(FONT_OUTCOMES.lock().unwrap().len()));
     ctx.set(
@@ -1255,6 +1413,104 @@ pub fn run(ctx: &Ctx) {
             "numGlyphs": if thorough { "1,2,7-9,31-65,95-97,127-129,255-257,1023-1025,32767,32768,65503-65505,65535" } else { "1,2,7-9,31-33,63-65,255-257,65504,65505,65535" },
         }),
     );
+}
+
+// ------------------------------------------------------------------------------------------------ corpus for C09
+
+/// WOFF2 files for C09 (every font the library reconstructs is a valid, self-consistent sfnt): a deterministic slice of the
+/// space above. Each entry is (description, WOFF2 file bytes, indices of the fonts in the file to reconstruct and validate —
+/// `[0]` for a single font, the TrueType members for a collection; CFF members are left out because their `CFF ` table is
+/// filler bytes). hmtx is stored untransformed or with flags = 1 (lsb[] elided) only: every file whose hmtx flags have bit 1
+/// (leftSideBearing[] elided) runs into the known hmtx defect (the reconstructed table has a side bearing for every glyph,
+/// also when numberOfHMetrics == numGlyphs) and is therefore not produced.
+pub fn corpus_for_c09(thorough: bool) -> Vec<(String, Vec<u8>, Vec<usize>)> {
+    let mut out: Vec<(String, Vec<u8>, Vec<usize>)> = Vec::new();
+    let single = |m: &Model, ch: &EncCh| -> Vec<u8> {
+        let orig = orig_tables(m);
+        let (entries, _) = encode_entries(m, &orig, ch);
+        enc::build_woff2(m.flavor, &entries, None, None, None)
+    };
+    // (a) reconstructed glyf of 131070 / 131072 / 131074 bytes (and a small one) from a short and from a long loca original
+    for (la, lb) in [(65516usize, 65515usize), (65516, 65516), (65516, 65518), (100, 200)] {
+        for long_loca in [false, true] {
+            let g = |l: usize| Glyph::simple(vec![vec![pt(0, 0, true)]], (0..l).map(|i| (i * 11) as u8).collect());
+            let m = ttf_model(vec![g(la), g(lb)], 2, 3, long_loca);
+            for flags in [0u8, 1] {
+                let mut ch = EncCh::plain(&m);
+                ch.hmtx_flags = flags;
+                out.push((format!("c11 loca-format: two glyphs with {} and {} instruction bytes, original loca {}, hmtx flags {}", la, lb, if long_loca { "long" } else { "short" }, flags), single(&m, &ch), vec![0]));
+            }
+        }
+    }
+    // (b) glyph-count boundaries
+    let mut counts: Vec<usize> = vec![1, 2, 7, 8, 9, 31, 32, 33, 64, 65, 255, 256, 257, 65504, 65505, 65535];
+    if thorough {
+        counts.extend([63, 95, 96, 97, 127, 128, 129, 1023, 1024, 1025, 32767, 32768, 65503]);
+    }
+    for n in counts {
+        let glyphs = sparse_set(n);
+        for (nhm, flags) in [(1usize, 1u8), (n, 1), (n / 2 + 1, 0)] {
+            for bbox_all in [false, true] {
+                if bbox_all && n > 300 && !thorough {
+                    continue;
+                }
+                let m = ttf_model(glyphs.clone(), nhm, 3, true);
+                let mut ch = EncCh::plain(&m);
+                ch.hmtx_flags = flags;
+                ch.gc.explicit_bbox = vec![bbox_all; n];
+                out.push((format!("c11 numGlyphs {}: numberOfHMetrics {}, hmtx flags {}, explicit bboxes {}", n, m.nhm, flags, bbox_all), single(&m, &ch), vec![0]));
+            }
+        }
+    }
+    // (c) the five glyph sets under numberOfHMetrics / hmtx flags / loca format / bbox / transform choices
+    for si in 0..SET_NAMES.len() {
+        let glyphs = glyph_set(si);
+        let n = glyphs.len();
+        for nhm in [1usize, n / 2, n] {
+            for long_loca in [false, true] {
+                for flags in [0u8, 1] {
+                    for bbox_mode in 0..2usize {
+                        for u255 in if thorough { &U255_MODES[..] } else { &U255_MODES[..1] } {
+                            let m = ttf_model(glyphs.clone(), nhm, 3, long_loca);
+                            let mut ch = EncCh::plain(&m);
+                            ch.hmtx_flags = flags;
+                            ch.gc.u255 = *u255;
+                            ch.gc.explicit_bbox = vec![bbox_mode == 1; n];
+                            out.push((
+                                format!("c11 glyph set {}: numberOfHMetrics {}, original loca {}, hmtx flags {}, bbox mode {}, 255UInt16 {:?}", SET_NAMES[si], m.nhm, if long_loca { "long" } else { "short" }, flags, bbox_mode, u255),
+                                single(&m, &ch),
+                                vec![0],
+                            ));
+                        }
+                    }
+                }
+                // glyf/loca stored untransformed
+                let m = ttf_model(glyphs.clone(), nhm, 3, long_loca);
+                let mut ch = EncCh::plain(&m);
+                ch.glyf_transform = false;
+                out.push((format!("c11 glyph set {}: numberOfHMetrics {}, original loca {}, null transform", SET_NAMES[si], m.nhm, if long_loca { "long" } else { "short" }), single(&m, &ch), vec![0]));
+            }
+        }
+    }
+    // (d) collections: members with the same and with different table sets, shared and unshared tables
+    for (k, sel) in mixed_selections().into_iter().enumerate() {
+        if !thorough && k % 3 != 0 {
+            continue;
+        }
+        for share in 0..4usize {
+            if !thorough && share != k % 4 {
+                continue;
+            }
+            let mut members: Vec<Member> = sel.iter().map(|&kind| mixed_member(kind, true, true)).collect();
+            for mb in members.iter_mut() {
+                mb.hmtx_flags &= 1;
+            }
+            let (file, _) = build_collection(&members, share & 1 != 0, share & 2 != 0, 0x0001_0000, U255Mode::Shortest, false);
+            let fonts: Vec<usize> = (0..sel.len()).filter(|&i| sel[i] != 2).collect();
+            out.push((format!("c11 collection of member kinds {:?} (2 = CFF, not validated), share glyf/loca {}, share other tables {}", sel, share & 1 != 0, share & 2 != 0), file, fonts));
+        }
+    }
+    out
 }
 
 // ------------------------------------------------------------------------------------------------ replay
@@ -1316,7 +1572,11 @@ pub fn replay(w: &Value) -> Result<(), String> {
                 }
             }
             let metrics = hmtx_metrics(find(HMTX).ok_or("no hmtx")?, n as u16, nhm as u16).ok_or("original hmtx unreadable")?;
-            let exp = Expect { tables: tbl.clone(), transformed: transformed.clone(), glyphs, metrics, num_glyphs: n, nhm };
+            let absent: Vec<u32> = match w["absent_probe"].as_array() {
+                Some(a) => a.iter().filter_map(|x| x.as_str()).map(tag_of).collect(),
+                None => absent_for(&tbl, &[]),
+            };
+            let exp = Expect { tables: tbl.clone(), transformed: transformed.clone(), glyphs, metrics, num_glyphs: n, nhm, probe_absent: absent };
             let lenient = transformed.contains(&HMTX) && !transformed.contains(&GLYF);
             let tags: Vec<u32> = exp.tables.iter().map(|t| t.0).collect();
             for seam in 0..2 {
@@ -1332,6 +1592,14 @@ pub fn replay(w: &Value) -> Result<(), String> {
                         if let Some((k, d)) = compare(&got, &exp, &mut notes).into_iter().next() {
                             return Err(format!("seam {}: {}: {}", seam, k, d));
                         }
+                    }
+                }
+            }
+            match probe_absent(&file, index, &exp.probe_absent) {
+                Err(p) => return Err(format!("absent probe: panic at {}: {}", p.loc(), p.msg)),
+                Ok(bad) => {
+                    if let Some(b) = bad.first() {
+                        return Err(format!("a table the font does not have is served: {}", b));
                     }
                 }
             }
